@@ -70,14 +70,16 @@ class Obj:
 
 class St:
     """One disjunct."""
-    __slots__ = ("eng", "cells", "taint", "guards", "dead")
+    __slots__ = ("eng", "cells", "taint", "guards", "dead", "zeros")
 
     def __init__(self):
         self.eng, self.cells, self.taint, self.guards, self.dead = {}, {}, {}, frozenset(), False
+        self.zeros = {}     # decl -> cells known to hold exactly zero
 
     def copy(self):
         s = St()
         s.eng, s.cells, s.taint, s.guards, s.dead = dict(self.eng), dict(self.cells), dict(self.taint), self.guards, self.dead
+        s.zeros = dict(self.zeros)
         return s
 
     def key(self):
@@ -97,6 +99,8 @@ def join(states):
         o = out[k]
         for d in set(o.cells) | set(s.cells):
             o.cells[d] = o.cells.get(d, 0) & s.cells.get(d, 0)
+        for d in set(o.zeros) | set(s.zeros):
+            o.zeros[d] = o.zeros.get(d, 0) & s.zeros.get(d, 0)
         for d in set(o.taint) | set(s.taint):
             o.taint[d] = o.taint.get(d, frozenset()) | s.taint.get(d, frozenset())
         o.guards = o.guards & s.guards
@@ -110,6 +114,8 @@ class FnResult:
         self.counts = {"deref": 0, "reads": 0, "writes": 0, "exits": 0, "noalias": 0, "opt_params": 0,
                        "tracked": 0, "returns": 0, "forwards": 0}
         self.returns = []           # (guards, taint, erased term, line)
+        self.exit_shape = {}        # output name -> (R, C, cells definitely written, cells definitely zero, kind)
+        self.ret_local = None       # (name, R, C, written, zero) of the returned tracked local, joined over returns
         self.exempt_notes = []
 
 
@@ -208,7 +214,7 @@ class Interp:
         return self.objs[root[1]]
 
     # -- state ops ----------------------------------------------------------------------
-    def write(self, reg, sts, taint, n, partial_mask=None):
+    def write(self, reg, sts, taint, n, partial_mask=None, zero=False):
         self.res.counts["writes"] += 1
         o = self.obj_of(reg.root)
         if reg.r0 < 0 or reg.c0 < 0 or reg.r0 + reg.nr > o.R or reg.c0 + reg.nc > o.C:
@@ -219,6 +225,7 @@ class Interp:
             if s.dead:
                 continue
             s.cells[o.decl] = s.cells.get(o.decl, 0) | m
+            s.zeros[o.decl] = (s.zeros.get(o.decl, 0) | m) if zero else (s.zeros.get(o.decl, 0) & ~m)
             t = taint | s.guards
             if o.kind == "opt":
                 t = t - {o.decl}
@@ -467,7 +474,7 @@ class Interp:
             for a in args:
                 t |= self.rd(a, sts)
             if isinstance(reg, Region):
-                self.write(reg, sts, t, n)
+                self.write(reg, sts, t, n, zero=(name == "setZero"))
                 return t
             if isinstance(reg, Dyn):
                 return t
@@ -671,6 +678,18 @@ class Interp:
                 if not s.dead:
                     g |= s.guards
             self.res.returns.append((g, t, self.erase(e), n.get("ln")))
+            rl = unwrap_copy(e)
+            if isinstance(rl, dict) and rl.get("k") == "DeclRefExpr" and rl.get("decl") in self.objs and self.objs[rl["decl"]].kind == "var":
+                o = self.objs[rl["decl"]]
+                w, z = o.full, o.full
+                for s in sts:
+                    if not s.dead:
+                        w &= s.cells.get(o.decl, 0)
+                        z &= s.zeros.get(o.decl, 0)
+                if self.res.ret_local is not None and self.res.ret_local[0] == o.name:
+                    w &= self.res.ret_local[3]
+                    z &= self.res.ret_local[4]
+                self.res.ret_local = (o.name, o.R, o.C, w, z)
             for s in sts:
                 if not s.dead:
                     self.exit_state(s, n)
@@ -763,6 +782,7 @@ class Interp:
             if tracked:
                 o = self.objs[d["decl"]]
                 s.cells[d["decl"]] = o.full if has_value else 0
+                s.zeros[d["decl"]] = o.full if (has_value and _is_zero_init(init)) else 0
             s.taint[d["decl"]] = (t | s.guards) if has_value else frozenset()
 
     def erase(self, e):
@@ -797,11 +817,13 @@ class Interp:
             if o.kind == "opt" and s.eng.get(d) is False:
                 continue
             self.exit_cells.setdefault(d, []).append(have)
+            self.exit_zeros.setdefault(d, []).append(s.zeros.get(d, 0))
 
     # -- driver --------------------------------------------------------------------------
     def run(self):
         f = self.f
         self.exit_cells = {}
+        self.exit_zeros = {}
         self.ni_pending = []
         s0 = St()
         for d in self.opt_params:
@@ -827,6 +849,10 @@ class Interp:
             if not masks:
                 definite = o.full   # no live exit where it is engaged
             self.res.summary[d] = definite
+            dz = o.full
+            for z in self.exit_zeros.get(d, []):
+                dz &= z
+            self.res.exit_shape[o.name] = (o.R, o.C, definite, dz if masks else 0, o.kind)
             if definite != o.full and not partial_helper:
                 kind = "optional output" if o.kind == "opt" else "Ref output"
                 self.report("R-DA", o.name,
@@ -858,6 +884,25 @@ class Interp:
                 names = ", ".join(sorted(self.opt_params[b].name for b in bad))
                 self.report("R-NI", "return", "returned value depends on whether '%s' was requested" % names, {"ln": ln})
         return self.res
+
+
+def _is_zero_init(init):
+    """`M = M::Zero()` / `M(M::Zero())` initialisers."""
+    n = unwrap_copy(init)
+    return isinstance(n, dict) and n.get("k") in ("CallExpr", "CXXMemberCallExpr") and A.short(n.get("fn")) == "Zero" and str(n.get("cls", "")).startswith("Eigen::")
+
+
+def unwrap_copy(n):
+    """Peel copy/move/conversion constructions of Eigen matrices down to the source expression."""
+    n = A.strip(n)
+    for _ in range(8):
+        if not (isinstance(n, dict) and n.get("k") in ("CXXConstructExpr", "CXXTemporaryObjectExpr", "CXXFunctionalCastExpr")):
+            break
+        ch = [c for c in (n.get("ch") or []) if not (isinstance(c, dict) and c.get("k") == "CXXDefaultArgExpr")]
+        if len(ch) != 1:
+            break
+        n = A.strip(ch[0])
+    return n
 
 
 def unwrap_ref(n):
